@@ -660,7 +660,8 @@ def nearest_neighbor_tcrdist(df, chain='beta', max_edits=2, edit_on_trimmed=True
     if edit_on_trimmed:
         ntrim = tcrdist_kwargs_this['ntrim']
         ctrim = tcrdist_kwargs_this['ctrim']
-        seqs = list(df[f'CDR3{chain_letter}'].str[ntrim:-ctrim])
+        # ctrim=0 trims nothing at the C-terminal end (s[ntrim:-0] would be empty)
+        seqs = list(df[f'CDR3{chain_letter}'].str[ntrim:(-ctrim if ctrim else None)])
         neighbors = nearest_neighbor(seqs, max_edits=max_edits, **kwargs)
     else:
         neighbors = nearest_neighbor(list(df[f'CDR3{chain_letter}']),
